@@ -336,7 +336,7 @@ class Evaluator:
             return self.exec_loop(s, st)
         if isinstance(s, ast.Return):
             v = self.ev(s.value, st) if s.value is not None else T.NONE
-            self.emit("return", s, value=v)
+            self.emit("return", s, value=v, attrs=dict(st.attrs))
             fr.exits.append((self._pc_cond(fr.pc_base), st, v))
             return None
         if isinstance(s, ast.Raise):
@@ -344,7 +344,7 @@ class Evaluator:
             if s.exc is not None:
                 e = s.exc.func if isinstance(s.exc, ast.Call) else s.exc
                 exc = ast.unparse(e)
-            self.emit("raise", s, exc=exc)
+            self.emit("raise", s, exc=exc, attrs=dict(st.attrs))
             return None
         if isinstance(s, ast.FunctionDef):
             sub = fr.func.nested.get(s.name)
@@ -1119,6 +1119,8 @@ class Evaluator:
             self.emit("call", node, callee=("lib", d), fi=None, args=tuple(args), kwargs=_kw(kwargs), result=res)
             return res
         if d == "joblib.delayed" and len(args) == 1:
+            return args[0]
+        if d == "bool" and len(args) == 1 and not kwargs and T._boolish(args[0]):
             return args[0]
         if d == "getattr" or d == "setattr":
             raise AnalysisError("dynamic attribute access (%s) at line %d" % (d, node.lineno))
